@@ -327,6 +327,7 @@ def run(rep, facts, tier):
     rule_16_6(rep, fx)
     rule_16_7(rep, fx)
     rule_16_9(rep, fx)
+    rule_16_10(rep, fx)
 
     # ------------------------------------------------------------ R16.8 crossed roles (shared lint, rdv/swaplint.py)
     from rdv import swaplint
@@ -562,3 +563,77 @@ def _strip(t):
     while isinstance(t, tuple) and t and t[0] in ('deref', 'ref', 'copy', 'move') and len(t) > 1 and isinstance(t[1], tuple):
         t = t[1]
     return t
+
+
+KM = 'security::cryptographic::cryptographic_builtin::key_material::KeyMaterial_AES_GCM_GMAC_seq::'
+
+
+def rule_16_10(rep, fx):
+    """An endpoint whose submessage and payload protection kinds differ has two key materials. The receiver-specific key (origin authentication of submessages) belongs to
+    the material that protects submessages: if it lands on the payload-only one, both sides consistently believe that no receiver-specific MAC is expected."""
+    rep.rule('R16.10', 'key-material positions: in KeyMaterial_AES_GCM_GMAC_seq the position that modify_key_material (hence add_master_receiver_specific_key) rewrites in the Two '
+                       'variant is the position select(MessageOrSubmessage) and key_material() return, the other position passes through unchanged in place, and '
+                       'select(PayloadOnly) returns the other position; One has a single position everywhere')
+    sel = fx.find(KM + 'select')
+    mod = fx.find(KM + 'modify_key_material')
+    km = fx.find(KM + 'key_material')
+    rep.analysed(sel, mod, km)
+    # select: which field of Two is returned under which scope
+    ogs = Origins(sel, summaries=False)
+    table = {}
+    scope_adt = fx.adt(KM.rsplit('::', 2)[0] + '::KeyMaterialScope')
+    P = Pos(sel)
+    for s_, t_, cond, lab in switch_edges(sel, fx, ogs):
+        if isinstance(lab, str) and lab in ('MessageOrSubmessage', 'PayloadOnly'):
+            refs = []
+            for bb, _k in P.reach((t_, 0), include_start=True):
+                for st in sel.blocks[bb]['st']:
+                    if st['s'] == 'assign' and st['rv']['r'] == 'ref':
+                        pr = st['rv']['pl'].get('p') or []
+                        idx = [e.get('n') for e in pr if isinstance(e, dict) and e.get('n') in ('0', '1')]
+                        var = [e.get('v') or e.get('variant') for e in pr if isinstance(e, dict) and (e.get('v') or e.get('variant'))]
+                        if idx and ('Two' in str(pr)):
+                            refs.append(idx[-1])
+            table[lab] = sorted(set(refs))
+    # a switch arm reaches the code of the other arm's join only; keep the first ref of each arm
+    ogm = Origins(mod, summaries=False)
+    modified = kept = None
+    for bb, si, st in mod.statements():
+        if st['s'] == 'assign' and st['lhs']['l'] == 0 and st['rv']['r'] == 'agg' and st['rv'].get('variant') == 'Two':
+            for i, o in enumerate(st['rv']['ops']):
+                v = ogm.of_operand(o, bb, si)
+                src = [x for x in _subterms16(v) if x[0] == 'field' and x[1] in ('0', '1') and x[2][0] == 'variant' and x[2][1] == 'Two']
+                through_f = term_has(v, lambda x: x[0] == 'call' and x[1].endswith('call_once'))
+                if through_f and src:
+                    modified = (i, int(src[0][1]))
+                elif src:
+                    kept = (i, int(src[0][1]))
+    ogk = Origins(km, summaries=False)
+    km_idx = None
+    for bb, si, st in km.statements():
+        if st['s'] == 'assign' and st['rv']['r'] == 'ref' and 'Two' in str(st['rv']['pl'].get('p')):
+            idx = [e.get('n') for e in (st['rv']['pl'].get('p') or []) if isinstance(e, dict) and e.get('n') in ('0', '1')]
+            if idx:
+                km_idx = int(idx[-1])
+    sub = table.get('MessageOrSubmessage')
+    pay = table.get('PayloadOnly')
+    ok = modified is not None and kept is not None and modified[0] == modified[1] and kept[0] == kept[1] and modified[0] != kept[0] and \
+        sub is not None and pay is not None and str(modified[0]) in sub and str(kept[0]) in pay and str(modified[0]) not in [x for x in pay if x not in sub] and km_idx == modified[0]
+    rep.check(ok, 'R16.10', 'KeyMaterial_AES_GCM_GMAC_seq/positions', 'modify rewrites position %s = select(MessageOrSubmessage) = key_material(); position %s (payload only) passes through' % (
+        modified[0] if modified else '?', kept[0] if kept else '?'),
+        'KeyMaterial_AES_GCM_GMAC_seq: modify_key_material rewrites Two position %s (kept: %s) while select(MessageOrSubmessage) returns %s, select(PayloadOnly) %s and key_material() %s: '
+        'the receiver-specific key is attached to a material that does not protect submessages, so no receiver-specific MAC is produced or expected and a submessage addressed to one '
+        'reader decodes at another' % (modified, kept, sub, pay, km_idx), mod.where())
+
+
+def _subterms16(t):
+    out = []
+
+    def walk(x):
+        if isinstance(x, tuple):
+            if x and isinstance(x[0], str):
+                out.append(x)
+            for y in x:
+                walk(y)
+    walk(t)
+    return out
